@@ -476,12 +476,31 @@ func specWellFormed(lg Language, toks []string) (member bool, valid bool) {
 	return member, verifAnd(member, specValid(idx))
 }
 
-func H_C03(lg Language, n int) {
+// verifTokenNE: an arbitrary non-empty token.
+func verifTokenNE(name string, lg Language) string {
+	t := verifToken(name, lg)
+	verifAssume(t != "")
+	return t
+}
+
+// H_C03: n non-empty tokens; gap < 0: joined by single spaces; gap = k in 0..n: one extra
+// separator before token k (k = 0 leading, k = n trailing, otherwise a doubled separator).
+// The reference speaks about the whitespace-separated tokens, i.e. the n non-empty ones.
+func H_C03(lg Language, n int, gap int) {
 	toks := make([]string, n)
 	for i := range toks {
-		toks[i] = verifToken("t"+itoa(i), lg)
+		toks[i] = verifTokenNE("t"+itoa(i), lg)
 	}
-	nf := strings.Join(toks, " ")
+	parts := make([]string, 0, n+1)
+	for i := 0; i <= n; i++ {
+		if i == gap {
+			parts = append(parts, "")
+		}
+		if i < n {
+			parts = append(parts, toks[i])
+		}
+	}
+	nf := strings.Join(parts, " ")
 	raw := verifPre("raw", nf)
 	verifObserve("raw", raw)
 	err := CheckMnemonic(raw, lg)
@@ -489,22 +508,24 @@ func H_C03(lg Language, n int) {
 	verifAssert(ok == (err == nil), "isvalid-iff-nil")
 	member, valid := specWellFormed(lg, toks)
 	verifAssert(verifImplies(err == nil, valid), "accepted-implies-wellformed")
-	// error kinds (C15)
-	if !specCountOK(n) {
-		verifAssert(errors.Is(err, ErrWordLen), "count-defect-gives-ErrWordLen")
-	} else {
-		verifAssert(verifImplies(verifAnd(member, !valid), errors.Is(err, ErrChecksumIncorrect)), "checksum-defect-gives-ErrChecksumIncorrect")
-		if err != nil {
-			named := false
-			msg := err.Error()
-			for _, t := range toks {
-				_, isM := verifGoldenIndex(lg, t)
-				named = verifOr(named, verifAnd(!isM, strings.Contains(msg, t)))
+	if gap < 0 {
+		// error kinds (C15) and completeness are stated for sentences whose only defect is the named one
+		if !specCountOK(n) {
+			verifAssert(errors.Is(err, ErrWordLen), "count-defect-gives-ErrWordLen")
+		} else {
+			verifAssert(verifImplies(verifAnd(member, !valid), errors.Is(err, ErrChecksumIncorrect)), "checksum-defect-gives-ErrChecksumIncorrect")
+			if err != nil {
+				named := false
+				msg := err.Error()
+				for _, t := range toks {
+					_, isM := verifGoldenIndex(lg, t)
+					named = verifOr(named, verifAnd(!isM, strings.Contains(msg, t)))
+				}
+				verifAssert(verifImplies(!member, verifAnd(verifAnd(!errors.Is(err, ErrWordLen), !errors.Is(err, ErrChecksumIncorrect)), named)), "unknown-word-gives-other-error-naming-it")
 			}
-			verifAssert(verifImplies(!member, verifAnd(verifAnd(!errors.Is(err, ErrWordLen), !errors.Is(err, ErrChecksumIncorrect)), named)), "unknown-word-gives-other-error-naming-it")
 		}
+		verifAssert(verifImplies(valid, err == nil), "wellformed-accepted")
 	}
-	verifAssert(verifImplies(valid, err == nil), "wellformed-accepted")
 	verifReach("end")
 }
 
@@ -981,7 +1002,7 @@ func H_C13_check(lg Language, n int, W int) {
 	verifWarmN(W)
 	toks := make([]string, n)
 	for i := range toks {
-		toks[i] = verifToken("t"+itoa(i), lg)
+		toks[i] = verifTokenNE("t"+itoa(i), lg)
 	}
 	raw := verifPre("raw", strings.Join(toks, " "))
 	e1 := CheckMnemonic(raw, lg)
@@ -1271,7 +1292,7 @@ var verifHarnesses = map[string]func(a []int64){
 	"H_C02_roundtrip":   func(a []int64) { H_C02_roundtrip(Language(a[0]), int(a[1])) },
 	"H_C02_newmnemonic": func(a []int64) { H_C02_newmnemonic(Language(a[0]), int(a[1])) },
 	"H_C02_complete":    func(a []int64) { H_C02_complete(Language(a[0]), int(a[1])) },
-	"H_C03":             func(a []int64) { H_C03(Language(a[0]), int(a[1])) },
+	"H_C03":             func(a []int64) { H_C03(Language(a[0]), int(a[1]), int(a[2])) },
 	"H_C03_count":       func(a []int64) { H_C03_count(Language(a[0]), int(a[1])) },
 	"H_C04":             func(a []int64) { H_C04() },
 	"H_C11":             func(a []int64) { H_C11() },
